@@ -4,7 +4,8 @@
    number of init fields, first class whose init fields contain every serialized key), the `_type_` entry + _locate,
    SerializableMixin.__init_subclass__ (how decode_into_subclasses is inherited), decode_field for the three shapes a
    dataclass can be reached through (a dataclass-typed field, List[..], Dict[str, ..]).
-   The sort key, the comparison of the superset test, first-match selection, the rule deriving the default of
+   The sort key, which fields of a candidate / of the dict the superset test looks at (init only, or all the fields that
+   to_dict writes), the comparison of the superset test, first-match selection, the rule deriving the default of
    drop_extra_fields and DC_TYPE_KEY are NOT written here: they are Section variables, instantiated from the regenerated
    facts in Gen/FactsSubclass.v.  Field payloads are integers decoded by identity (self-contained: the general
    serialization model is another topic). *)
